@@ -138,6 +138,28 @@ def quad_stream(rep, r, n, lines, exps, kinds):
                 rep.violation('quadratic-vertex', f'exactly quadratic peak with vertex {(xv, yv)}: centroid_quadratic = {(x, y)}',
                               {'image': img.tolist(), 'fit_boxsize': fb, 'mask': None if mask is None else mask.astype(int).tolist()})
                 continue
+        if is_max and k % 2 == 0:
+            # (S) an explicit start pixel up to 3 px off the vertex (interior, not on an edge): the fit of an exactly quadratic image is exact
+            # on ANY box, so the vertex comes back - also when it lies outside the fitting box, to its left / below it (seed C17-r8)
+            for dx_, dy_ in [(r.choice([2, 3]), 0), (0, r.choice([2, 3])), (-r.choice([2, 3]), r.choice([-2, 2]))]:
+                xp, yp = int(round(xv)) + dx_, int(round(yv)) + dy_
+                if not (1 <= xp <= nx - 2 and 1 <= yp <= ny - 2):
+                    continue
+                with warnings.catch_warnings():
+                    warnings.simplefilter('ignore')
+                    try:
+                        x2, y2 = centroid_quadratic(img, xpeak=xp, ypeak=yp, fit_boxsize=3)
+                    except Exception as e:                      # noqa: BLE001
+                        rep.violation(f'quadratic-raises:{type(e).__name__}:xpeak', f'centroid_quadratic(xpeak={xp}, ypeak={yp}) raised {e!r}', {'image': img.tolist()})
+                        break
+                rep.count('quadratic-explicit-peak')
+                if not (close(x2, xv, 1e-6) and close(y2, yv, 1e-6)):
+                    rep.violation('quadratic-vertex:explicit-peak', f'exactly quadratic peak with vertex {(xv, yv)}, fit box of 3 around (xpeak, ypeak) = {(xp, yp)}: '
+                                  f'centroid_quadratic = {(float(x2), float(y2))}', {'image': img.tolist(), 'xpeak': xp, 'ypeak': yp, 'fit_boxsize': 3})
+                    break
+        if det == 0:
+            rep.count('skipped:quadv:det-exactly-zero')      # a ridge: `det <= 0` on the fitted coefficients is decided by rounding
+            continue
         lines.append('quadv ' + ' '.join(q(v) for v in (c10, c01, c11, c20, c02)) + f' {ny} {nx}')
         exps.append(('nan',) if math.isnan(x) else (float(x), float(y)))
         kinds.append('quad')
